@@ -95,6 +95,8 @@ def rand_rewrite(rng, name, vendors=(311, 9, 27262), grow=False):
         rw.rm = sorted({rng.choice([1, 18, 24, 25, 26, 31, 33, 44, 79, 80, 87, rng.randrange(1, 256)]) for _ in range(rng.randrange(1, 4))})
         if rw.wl:   # keep the essentials most of the time
             rw.rm = sorted(set(rw.rm) | ({1, 2, 4, 26} if rng.random() < 0.8 else set()))
+    if rng.random() < 0.2:   # rules that name the attributes the proxy itself must add (Message-Authenticator, Proxy-State, TTL)
+        rw.rm = sorted(set(rw.rm or []) | {rng.choice([80, 80, 33, 26])})
     if rng.random() < 0.4:
         rw.rmv = [(rng.choice(vendors), rng.choice([256, 1, 2, 16, 17, rng.randrange(1, 256)])) for _ in range(rng.randrange(1, 3))]
     if rng.random() < 0.4:
@@ -267,7 +269,7 @@ class Cfg:
 PROTO_DEFAULTS = {0: (2, 5, 10), 1: (0, 10, 10), 2: (0, 10, 10), 3: (2, 5, 10)}   # retrycount, retryinterval, dupinterval
 
 
-def rand_cfg(rng, nclients=None, nservers=None, rewrites=True, ttl=True, plain_ttl=None, types=None, grow=False):
+def rand_cfg(rng, nclients=None, nservers=None, rewrites=True, ttl=True, plain_ttl=None, types=None, grow=False, rwout_p=0.3):
     c = Cfg()
     if ttl:
         if rng.random() < 0.4:
@@ -287,7 +289,7 @@ def rand_cfg(rng, nclients=None, nservers=None, rewrites=True, ttl=True, plain_t
     for i in range(nclients or rng.randrange(1, 4)):
         ty = rng.choice(types or [0, 0, 2, 2, 1, 3])
         cl = dict(name="cl%d" % i if rng.random() < 0.8 else "peer%d" % i, host="127.0.1.%d" % (i + 1), type=ty, secret=R.rand_secret(rng),
-                  dup=PROTO_DEFAULTS[ty][2], addttl=rng.choice([0, 0, 3, 200]) if ttl else 0, rwin=pick(), rwout=pick(0.3),
+                  dup=PROTO_DEFAULTS[ty][2], addttl=rng.choice([0, 0, 3, 200]) if ttl else 0, rwin=pick(), rwout=pick(rwout_p),
                   rwuser=rng.choice(MOD_POOL[:3]) if rng.random() < 0.25 else None,
                   reqma=rng.random() < 0.25, reqmap=rng.random() < 0.25)
         if rng.random() < 0.5:
